@@ -23,7 +23,9 @@ Record tv_shape := {
   sh_nongeneric_fresh : bool;        (* else branch: setattr(self, ATTR, t_vars) *)
   sh_orig_class_guard : bool;        (* `if not hasattr(instance, '__orig_class__'): return type_vars` *)
   sh_generics_positional : bool;     (* type_vars[type_var] = actual_types[i] over enumerate(type_variables) *)
-  sh_generic_by_parameters : bool;   (* is_instance_of_generic_class: `Generic in __bases__ or len(__parameters__) > 0` *)
+  sh_generic_by_parameters : bool;
+  sh_every_check_fetches_table : bool; (* every assert_value_matches_type call of FunctionCall (named, *args, **kwargs, result) passes
+                                         `type_vars=self.type_vars` - the property, evaluated per checked value *)   (* is_instance_of_generic_class: `Generic in __bases__ or len(__parameters__) > 0` *)
 }.
 
 Definition tv_test_eqb (a b : tv_test) : bool :=
@@ -43,4 +45,4 @@ Definition shape_modelled (s : tv_shape) : bool :=
   && tv_test_eqb (sh_contra s) ByIsSubclass && sh_conflict_raises_mismatch s && sh_rebinds_latest s
   && sh_call_table_fresh s && sh_call_uses_instance_method s && sh_table_on_instance s
   && parts_eqb (sh_merge_order s) [PartStored; PartGenerics; PartSelf]
-  && sh_nongeneric_fresh s && sh_orig_class_guard s && sh_generics_positional s && sh_generic_by_parameters s.
+  && sh_nongeneric_fresh s && sh_orig_class_guard s && sh_generics_positional s && sh_generic_by_parameters s && sh_every_check_fetches_table s.
